@@ -102,6 +102,9 @@ def malicious(rng, kind, hs):
         b.add("blob", b"after the gap")
     elif kind == "count-more":
         return b.build(count=b.count + rng.choice([1, 2, 1000, 0xffffffff - b.count]))
+    elif kind == "count-max":
+        # the header announces 2^32-1 objects: nothing may be sized from it before the objects are seen
+        return b.build(count=0xffffffff)
     elif kind == "count-less":
         b.add("blob", blob2)
         return b.build(count=b.count - 1)
@@ -128,7 +131,7 @@ def malicious(rng, kind, hs):
 HAND = ["short-inflate", "long-inflate", "short-delta", "long-delta", "dangling-ref", "self-ref", "ofs-zero", "ofs-beyond",
         "ofs-header", "ofs-mid", "bad-type", "size-overflow", "ofs-overflow", "delta-srcsize", "delta-copy-range", "delta-cmd0",
         "delta-trunc-literal", "delta-trailing", "delta-tgt-more", "delta-tgt-less", "delta-leb-overflow", "tiny-delta",
-        "delta-empty", "zlib-adler", "zlib-dict", "zlib-garbage", "zlib-gap", "count-more", "count-less", "junk", "trailer",
+        "delta-empty", "zlib-adler", "zlib-dict", "zlib-garbage", "zlib-gap", "count-more", "count-max", "count-less", "junk", "trailer",
         "version", "signature", "short-file"]
 
 
@@ -172,7 +175,7 @@ class Main(Suite):
     go_cmd = "c08"
     coq_imports = "From GoGit Require Import Model.PackParse."
     quick_n = 64
-    thorough_n = 1500
+    thorough_n = 400
     coq_chunk = 8
 
     def gen(self, rng, n, tier):
